@@ -14,7 +14,13 @@ mod vtree;
 mod window;
 
 fn main() {
-	std::panic::set_hook(Box::new(|_| {}));
+	// panics are outcomes (encoded in the transcript); VERIF_PANIC_MSG=1 also prints their messages to stderr for diagnosis
+	let verbose = std::env::var("VERIF_PANIC_MSG").is_ok();
+	std::panic::set_hook(Box::new(move |info| {
+		if verbose {
+			eprintln!("panic: {info}");
+		}
+	}));
 	let stdin = io::stdin();
 	let stdout = io::stdout();
 	let mut out = io::BufWriter::new(stdout.lock());
